@@ -210,6 +210,15 @@ class _CppTranslator(TranslatorBase):
     block_template = CPP_SOURCE_TEMPLATE
 
     def translate_enum(self, node):
+        def numeric(value):
+            try:
+                return int(value, 0)
+            except ValueError:
+                return value
+
+        # enumerators may share a value; a switch takes each value once: the last name, as the Python codec prints
+        values = [numeric(m.value) for m in node.members]
+        members = [m for i, m in enumerate(node.members) if values[i] not in values[i + 1:]]
         return (
                 'template <>\n' +
                 'const char* print_traits<{0}>::to_literal({0} x)\n'.format(node.name) +
@@ -218,7 +227,7 @@ class _CppTranslator(TranslatorBase):
                     'switch (x)\n' +
                     '{\n' +
                     _indent(
-                        ''.join('case {0}: return "{0}";\n'.format(m.name) for m in node.members) +
+                        ''.join('case {0}: return "{0}";\n'.format(m.name) for m in members) +
                         'default: return 0;\n'
                     ) +
                     '}\n'
